@@ -10,20 +10,24 @@ Import ListNotations.
 Require Import Verif.gen.EventualGen.
 Local Open Scope Z_scope.
 
-Inductive script := Sc (id : Z) (acts : list act) (raises : bool)
+(* how a callable ends: returns, raises an Exception, raises a BaseException that is not an Exception
+   (SystemExit, KeyboardInterrupt, GeneratorExit, ...) *)
+Inductive rkind := RNo | RExc | RBase.
+
+Inductive script := Sc (id : Z) (acts : list act) (raises : rkind)
 with act := AEnq (s : script) | AFlush (fid : Z) (cb : list script).
 (* AFlush fid cb: d = flushEventualQueue(); d.addCallback(lambda _: [eventually(s) for s in cb]) *)
 
 Definition sid (s : script) : Z := match s with Sc i _ _ => i end.
 Definition sacts (s : script) : list act := match s with Sc _ a _ => a end.
-Definition sraises (s : script) : bool := match s with Sc _ _ r => r end.
+Definition sraises (s : script) : rkind := match s with Sc _ _ r => r end.
 
 Record evcfg := {
   c_pos : endpos;            (* where append() puts the new entry *)
   c_arms : bool;             (* append() schedules _turn when no timer is pending *)
   c_clears : bool;           (* _turn resets self._timer before running the batch *)
   c_order : iterorder;       (* order in which _turn walks the batch *)
-  c_catch : bool;            (* each call is wrapped in try/except *)
+  c_catch : catchmode;       (* what the try/except around each call catches *)
   c_fire : firemode;         (* how _turn serves the flush observers after the batch *)
   c_marks : bool;            (* self._in_turn is True while the batch runs *)
   c_guard : flushguard       (* when flush() returns an already-fired Deferred *)
@@ -36,13 +40,18 @@ Definition src_cfg : evcfg := {|
 
 (* the code as it was before commit "flushEventualQueue waits for the batch that is being run" *)
 Definition old_cfg : evcfg := {|
-  c_pos := Tail; c_arms := true; c_clears := true; c_order := Forward; c_catch := true;
+  c_pos := Tail; c_arms := true; c_clears := true; c_order := Forward; c_catch := CatchAll;
   c_fire := FireAllIfEmpty; c_marks := false; c_guard := FlushWhenNoEvents |}.
 
 (* ... and before commit "flush observers are only notified while the eventual queue is still empty" *)
 Definition old2_cfg : evcfg := {|
-  c_pos := Tail; c_arms := true; c_clears := true; c_order := Forward; c_catch := true;
+  c_pos := Tail; c_arms := true; c_clears := true; c_order := Forward; c_catch := CatchAll;
   c_fire := FireAllIfEmpty; c_marks := true; c_guard := FlushWhenIdle |}.
+
+(* `except Exception:` instead of the bare `except:` *)
+Definition exc_only_cfg : evcfg := {|
+  c_pos := Tail; c_arms := true; c_clears := true; c_order := Forward; c_catch := CatchException;
+  c_fire := FireWhileEmpty; c_marks := true; c_guard := FlushWhenIdle |}.
 
 Record qstate := {
   events : list script;      (* self._events *)
@@ -104,6 +113,13 @@ Fixpoint run_acts (c : evcfg) (ctx : option (list script)) (st : qstate) (l : li
                let '(st2, t2) := run_acts c ctx st1 l' in (st2, t1 ++ t2)
   end.
 
+Definition catches (c : evcfg) (k : rkind) : bool :=
+  match c_catch c with
+  | CatchAll => true
+  | CatchException => match k with RBase => false | _ => true end
+  | CatchNone => false
+  end.
+
 (* `for cb, args, kwargs in events: try: cb(..) except: log.err()`; the bool says whether
    the loop ran to its end (false: an exception left _turn) *)
 Fixpoint run_batch (c : evcfg) (st : qstate) (batch : list script) : qstate * list ev * bool :=
@@ -111,12 +127,13 @@ Fixpoint run_batch (c : evcfg) (st : qstate) (batch : list script) : qstate * li
   | [] => (st, [], true)
   | s :: rest =>
       let '(st1, t1) := run_acts c (Some rest) st (sacts s) in
-      if sraises s then
-        if c_catch c then
+      match sraises s with
+      | RNo => let '(st2, t2, ok) := run_batch c st1 rest in (st2, Ran (sid s) :: t1 ++ t2, ok)
+      | k =>
+        if catches c k then
           let '(st2, t2, ok) := run_batch c st1 rest in (st2, Ran (sid s) :: t1 ++ Raised (sid s) :: t2, ok)
         else (st1, Ran (sid s) :: t1 ++ [Raised (sid s); Escaped (sid s)], false)
-      else
-        let '(st2, t2, ok) := run_batch c st1 rest in (st2, Ran (sid s) :: t1 ++ t2, ok)
+      end
   end.
 
 (* `while self._flushObservers and not self._events: self._flushObservers.pop(0).callback(None)` *)
